@@ -330,17 +330,43 @@ def write_replay(pid, seed, kind, payload):
     return path
 
 
+class CaseTimeout(Exception):
+    pass
+
+
+def _alarm(signum, frame):
+    raise CaseTimeout()
+
+
 def safe_evaluate(mod, desc):
     """Run the module's evaluate; an unexpected exception of the implementation is itself a
-    failed oracle (the property demands a result), reported with the exception text."""
+    failed oracle (the property demands a result), reported with the exception text.  A watchdog
+    (SIGALRM, main thread only) turns an implementation that does not return within the module's
+    CASE_TIMEOUT seconds into a failed oracle as well: every property here demands a result."""
+    import signal
+    limit = getattr(mod, "CASE_TIMEOUT", 30)
+    use_alarm = hasattr(signal, "setitimer") and limit
+    if use_alarm:
+        try:
+            old_handler = signal.signal(signal.SIGALRM, _alarm)
+            signal.setitimer(signal.ITIMER_REAL, limit)
+        except ValueError:          # not in the main thread
+            use_alarm = False
     try:
         return mod.evaluate(desc)
+    except CaseTimeout:
+        return Case(desc, [], [], oracle="implementation did not return within %d s on this input (hang / "
+                    "non-termination where the property demands a result)" % limit, tag="timeout")
     except Infra:
         raise
     except Exception as e:  # noqa
         tb = traceback.format_exc(limit=4)
         return Case(desc, [], [], oracle="implementation raised %s: %s\n%s" % (type(e).__name__, e, tb),
                     tag="exception")
+    finally:
+        if use_alarm:
+            signal.setitimer(signal.ITIMER_REAL, 0)
+            signal.signal(signal.SIGALRM, old_handler)
 
 
 def shrink_desc(mod, desc, still_fails, limit=300):
@@ -382,7 +408,7 @@ def run_check(pid, tier, seed, replay=None):
     anchors = getattr(mod, "ANCHORS", [])
     cur = anchor_hash(anchors)
     drift = load_anchors().get(pid) not in (None, cur)
-    mult = 4 if drift else 1
+    mult = 2 if drift else 1      # changed code under the model: explore twice as much
 
     # 2. proof obligations
     po = proof_obligations(pid, thorough=thorough)
@@ -479,7 +505,7 @@ def run_check(pid, tier, seed, replay=None):
         found = None
         budget = (200 if thorough else 20)
         rng2 = random.Random(rng.random())
-        tend = time.time() + (600 if thorough else 120)
+        tend = time.time() + (600 if thorough else 60)
         for d in mod.generate(tier, rng2, budget):
             if time.time() > tend:
                 break
